@@ -111,6 +111,11 @@ def rule_sides(ctx):
     f = ctx.program.func("util.interpolate_intervals", R)
     s = ctx.S.get(f.qual)
     ss = [c for c in s.calls() if c.callee == "np.searchsorted"]
+    if len(ss) == 1 and len(ss[0].args) >= 2 and ss[0].args[1].op == "param" and ss[0].args[1].a[0] == "intervals":
+        # one search for both columns has one `side`: the starts need 'left' (a sample on a start belongs to the interval
+        # that starts there) and the ends need 'right' (a sample on the final end still belongs to the last interval)
+        yield ob(R, f, "util.interpolate_intervals:ends-side", False, "starts and ends are located by a single np.searchsorted(time_points, intervals): both columns get the same side, so a sample exactly on an interval end (or start) is assigned differently from the published behaviour", node=ss[0].node)
+        return
     need(len(ss) == 2, R, "interpolate_intervals: the two searchsorted calls were not found")
     starts = ends = None
     for c in ss:
